@@ -9,8 +9,11 @@ LEVEL = "exploration"
 CHUNK = 1
 CASE_TIMEOUT = 1800
 REQUIRED_COUNTERS = ["specs_compared", "compatible_pairs_combined", "pairs_examined"]
-RULE = ("2-Einsum specs (matmul chains, matvec chains, fan-in with both Einsum orders; tight / generous buffers; "
-        "max_fused_loops in {0,1,2,inf}); the per-Einsum pmapping tables of the real run (make_pmappings) are expanded row "
+RULE = ("2- and 3-Einsum specs (matmul chains, batched matmul chains whose intermediates carry two fusable ranks and whose "
+        "weights are reused across opposite ranks, matvec chains, fan-in with both Einsum orders; tight / generous buffers; "
+        "max_fused_loops in {0,1,2,inf}; metric sets with and without latency / usage); 3-Einsum chains: every pairwise-"
+        "compatible TRIPLE, merged by the chain merger (more than 400 triples: capacity/usage from the occupancy simulator, a "
+        "sample cross-checked against the model, any difference to the join decided by model evaluation only); the per-Einsum pmapping tables of the real run (make_pmappings) are expanded row "
         "by row to concrete per-Einsum trees; EVERY pair of rows is examined: compatible iff for every shared tensor the "
         "backing component agrees and the loops above the backing storage agree in rank variable and tile shape up to "
         "permutation inside a run of adjacent loops (decided from the trees, not from Compatibility objects); each "
@@ -18,8 +21,8 @@ RULE = ("2-Einsum specs (matmul chains, matvec chains, fan-in with both Einsum o
         "included; its energy/latency must equal the sum of the two rows), and the combinations are Pareto-filtered by the "
         "reference filter; the resulting (energy, latency[, usage]) front must equal the front of main.join_pmappings on "
         "the same tables. non-trivial = >= 2 compatible pairs and >= 2 rows per Einsum; distinct = (spec, knobs, metrics)")
-ASSUMPTIONS = ["2-Einsum slice (3-Einsum joins are covered differentially by C14)",
-               "tables larger than 70 rows per Einsum are skipped and counted (pair budget)",
+ASSUMPTIONS = ["2-Einsum workloads and 3-Einsum chains (no tensor shared by the first and the last Einsum)",
+               "tables larger than 70 (2 Einsums) / 600 (3 Einsums) rows per Einsum, or more than 12000 compatible triples, are skipped and counted",
                "float32 tolerance 2^-16 when matching front points"]
 TECHNIQUE = "runtime monitoring: exhaustive pairwise combination with tree-level compatibility and an independent tree merger as reference for the real join on recorded pmapping tables"
 
@@ -29,17 +32,38 @@ def gen_cases(tier, seed):
     n = 24 if tier == "quick" else 250
     cases = []
     for i in range(n):
-        wk = rnd.choice(["chain2", "mvchain2", "mvchain2", "fanin2", "chain2"])
+        wk = rnd.choice(["chain2", "mvchain2", "mvchain2", "fanin2", "chain2", "bchain2", "bchain3", "bchain3", "chain3"])
         d = gs.gen_spec(rnd, wk, levels=2, size_class=rnd.choice(["tight", "tight", "generous"]), costs=rnd.choice(["tradeoff", "tradeoff", "random"]))
-        if wk == "chain2":
+        if wk in ("chain2", "chain3"):
             for rv in d["workload"]["ranks"]:
-                d["workload"]["ranks"][rv] = rnd.choice([2, 3, 4])
+                d["workload"]["ranks"][rv] = rnd.choice([2, 3, 4] if wk == "chain2" else [2, 2, 3])
+        opposed = False
+        if wk == "bchain3":
+            for rv in d["workload"]["ranks"]:
+                d["workload"]["ranks"][rv] = rnd.choice([2, 2, 2, 3, 4]) if rv in ("b", "m") else 2
+            if rnd.random() < 0.6:
+                # "opposed" class: one weight is reused across m (wants b outermost), another across b (wants m
+                # outermost), the third is indifferent -> the fused loop ORDER pinned by one Einsum must survive the
+                # join with the next; capacity binds so that holding both weights stationary would pay off
+                opposed = True
+                ex = rnd.choice([(["b"], [], ["m"]), (["m"], [], ["b"]), (["b"], ["m"], []), ([], ["b"], ["m"])])
+                for e, x in zip(d["workload"]["einsums"], ex):
+                    k = int(e["name"][1:])
+                    e["tensors"][1]["proj"] = list(x) + [f"n{k}", f"n{k + 1}"]
+                d["workload"]["ranks"].update(b=2, m=rnd.choice([2, 4, 4]))
+                bits = d["workload"]["bits"]
+                d["arch"]["mems"][0]["keep"] = "~Intermediates"
+                d["arch"]["mems"][1].update(size=bits * rnd.choice([24, 32, 32, 40, 48]), keep="~MainMemory", may_keep="All")
+                d["arch"]["size_class"] = "tight-opposed"
         if wk == "fanin2" and rnd.random() < 0.5:
             d["workload"]["einsums"].reverse()
-        if rnd.random() < 0.5:
+        if rnd.random() < 0.5 and not opposed:
             d["mapper"]["max_fused_loops"] = rnd.choice([0, 1, 2])
-        cases.append({"class": wk + "/" + d["arch"]["size_class"], "desc": d,
-                      "metrics": "ENERGY|LATENCY" if i % 3 else "ENERGY|LATENCY|RESOURCE_USAGE"})
+        metrics = "ENERGY|LATENCY" if (i % 3 and not wk.startswith("bchain")) or (wk.startswith("bchain") and i % 3 == 0) \
+            else "ENERGY|LATENCY|RESOURCE_USAGE"
+        if opposed:
+            metrics = rnd.choice(["ENERGY|RESOURCE_USAGE", "ENERGY|RESOURCE_USAGE", "ENERGY|LATENCY|RESOURCE_USAGE", "ENERGY"])
+        cases.append({"class": wk + "/" + d["arch"]["size_class"], "desc": d, "metrics": metrics})
     return cases
 
 
@@ -77,11 +101,13 @@ def run_case(case):
                 row = data.iloc[i].copy()
                 row[f"{e}<SEP>mapping"] = pm.pmapping_objects[e][row[f"{e}<SEP>mapping"]]
                 mp = Mapping._from_pmappings(row2pmappings(row, [e], rvb), rank_variable_bounds=rvb)
-                rows.append((float(row["Total<SEP>energy"]), float(row["Total<SEP>latency"]), H.plain_tree(mp)))
+                rows.append((float(row["Total<SEP>energy"]), float(row["Total<SEP>latency"]) if "Total<SEP>latency" in row.index else None, H.plain_tree(mp)))
         tables[e] = rows
-    if len(tables) != 2 or any(len(r) > 70 for r in tables.values()):
+    if len(tables) not in (2, 3) or any(len(r) > (70 if len(tables) == 2 else 600) for r in tables.values()):
         bump("skipped_over_pair_budget")
-        return {"status": "ok", "counters": counters, "reason": "pair budget"}
+        return {"status": "ok", "counters": counters, "reason": "pair budget: rows " + str([len(r) for r in tables.values()])}
+    if len(tables) == 3:
+        return _chain3(case, d, metrics, m, pm, tables, counters, bump)
     shared = jr.shared_tensors(d["workload"])
     (ea, ra), (eb, rb) = list(tables.items())
     finite = [x["name"] for x in d["arch"]["mems"] if x.get("size", "inf") != "inf"]
@@ -94,47 +120,84 @@ def run_case(case):
             if not jr.compatible(a[2], b[2], shared):
                 continue
             bump("compatible_pairs_combined")
-            try:
-                tree = jr.merge(a[2], b[2], shared, [x["name"] for x in d["arch"]["mems"]])
-                ev = H.eval_tree(d, tree)
-            except InvalidMappingError:
-                bump("combinations_over_capacity")
-                continue
-            except Exception as ex:
-                # the model (which joins the branches itself) refuses the fused tree: fall back to the sums and
-                # to the occupancy simulator for usage / capacity, and remember that this happened
-                bump("model_refuses_merged_tree:" + type(ex).__name__)
-                try:
-                    from ..ref.occupancy import Occupancy
-                    arch = {x["name"]: {"kind": x.get("kind", "Memory"), "bits": x.get("bits_per_value")} for x in d["arch"]["mems"]}
-                    pk = Occupancy(d["workload"], arch).run(tree).peaks("tile")
-                    size = {x["name"]: x["size"] for x in d["arch"]["mems"]}
-                    if any(pk.get(x, 0) > size[x] for x in finite):
-                        bump("combinations_over_capacity")
-                        continue
-                    v = [a[0] + b[0], a[1] + b[1]] + ([round(pk.get(x, 0) / size[x], 6) for x in finite] if with_usage else [])
-                    cands.append(tuple(v))
-                    fallback_points.add(tuple(v))
-                except Exception as ex2:
-                    bump("reference_merger_failed:" + type(ex2).__name__)
-                continue
-            E, L = float(ev.energy()), float(ev.latency())
-            if not (H.close(E, a[0] + b[0], rel=1e-5) and H.close(L, a[1] + b[1], rel=1e-5)):
-                bump("reference_sum_mismatch(inconclusive)")
-                continue
-            v = [a[0] + b[0], a[1] + b[1]]
-            if with_usage:
-                ru = ev.resource_usage()
-                v += [round(float(ru.get(x, 0.0)), 6) for x in finite]     # the join carries usage in float32
-            cands.append(tuple(v))
+            _combo(d, lambda: jr.merge(a[2], b[2], shared, [x["name"] for x in d["arch"]["mems"]]), a[0] + b[0], _add(a[1], b[1]),
+                   with_usage, finite, bump, cands, fallback_points)
+    return _compare(d, metrics, m, pm, cands, fallback_points, counters, bump, [len(ra), len(rb)])
+
+
+def _add(*xs):
+    return None if any(x is None for x in xs) else sum(xs)
+
+
+def _vec(e, l):
+    return [e] if l is None else [e, l]
+
+
+def _combo(d, build, se, sl, with_usage, finite, bump, cands, fallback_points):
+    """One compatible combination: merged by the reference merger, evaluated by the real model."""
+    from .. import harness as H
+    from accelforge.model.main import InvalidMappingError
     try:
-        joined = join_pmappings(pm, metrics=m, print_progress=False)
-        jrows = H.result_rows(joined, with_tree=False)
+        tree = build()
+    except ValueError:
+        # pairwise-compatible rows whose loops above the intermediates admit no common order
+        bump("combinations_without_common_order")
+        return
+    try:
+        ev = H.eval_tree(d, tree)
+    except InvalidMappingError:
+        bump("combinations_over_capacity")
+        return
     except Exception as ex:
-        if any(s in str(ex) for s in ("No valid", "no valid", "No mappings", "no mappings")):
-            jrows = None
-        else:
-            raise
+        # the model (which joins the branches itself) refuses the fused tree: fall back to the sums and
+        # to the occupancy simulator for usage / capacity, and remember that this happened
+        bump("model_refuses_merged_tree:" + type(ex).__name__)
+        try:
+            from ..ref.occupancy import Occupancy
+            arch = {x["name"]: {"kind": x.get("kind", "Memory"), "bits": x.get("bits_per_value")} for x in d["arch"]["mems"]}
+            pk = Occupancy(d["workload"], arch).run(tree).peaks("tile")
+            size = {x["name"]: x["size"] for x in d["arch"]["mems"]}
+            if any(pk.get(x, 0) > size[x] for x in finite):
+                bump("combinations_over_capacity")
+                return
+            v = _vec(se, sl) + ([round(pk.get(x, 0) / size[x], 6) for x in finite] if with_usage else [])
+            cands.append(tuple(v))
+            fallback_points.add(tuple(v))
+        except Exception as ex2:
+            bump("reference_merger_failed:" + type(ex2).__name__)
+        return
+    E, L = float(ev.energy()), float(ev.latency())
+    if not (H.close(E, se, rel=1e-5) and (sl is None or H.close(L, sl, rel=1e-5))):
+        bump("reference_sum_mismatch(inconclusive)")
+        return
+    v = _vec(se, sl)
+    if with_usage:
+        ru = ev.resource_usage()
+        v += [round(float(ru.get(x, 0.0)), 6) for x in finite]     # the join carries usage in float32
+    cands.append(tuple(v))
+
+
+def _compare(d, metrics, m, pm, cands, fallback_points, counters, bump, sizes, _cache=None):
+    from .. import harness as H
+    from ..ref.pareto import front
+    from accelforge.mapper.FFM.main import join_pmappings
+    viol = []
+    ra = rb = None
+    finite = [x["name"] for x in d["arch"]["mems"] if x.get("size", "inf") != "inf"]
+    with_usage = "RESOURCE_USAGE" in metrics
+    if _cache is not None and "jrows" in _cache:
+        jrows = _cache["jrows"]
+    else:
+        try:
+            joined = join_pmappings(pm, metrics=m, print_progress=False)
+            jrows = H.result_rows(joined, with_tree=False)
+        except Exception as ex:
+            if any(s in str(ex) for s in ("No valid", "no valid", "No mappings", "no mappings")):
+                jrows = None
+            else:
+                raise
+        if _cache is not None:
+            _cache["jrows"] = jrows
     bump("specs_compared")
     if counters.get("reference_merger_failed:ValueError") or counters.get("reference_sum_mismatch(inconclusive)"):
         return {"status": "inconclusive", "reason": "reference merger could not build/confirm some combination", "counters": counters}
@@ -142,7 +205,7 @@ def run_case(case):
         if (jrows is None) != (not cands):
             viol.append({"sig": "join_and_reference_disagree_on_existence", "witness": {"join_has_rows": jrows is not None, "reference_combinations": len(cands), "spec": gs.summary(d)}})
         return {"status": "violation" if viol else "ok", "violations": viol, "counters": counters}
-    got = sorted({tuple([r["energy"], r["latency"]] + ([round(r["usage"].get(x, 0.0), 6) for x in finite] if with_usage else [])) for r in jrows})
+    got = sorted({tuple(_vec(r["energy"], r["latency"] if "LATENCY" in metrics else None) + ([round(r["usage"].get(x, 0.0), 6) for x in finite] if with_usage else [])) for r in jrows})
     ref = front(cands)
     tol = 2.0 ** -16
 
@@ -156,10 +219,192 @@ def run_case(case):
         if only_ref and all(tuple(r) in fallback_points for r in only_ref) and not only_join:
             kind = "join_refuses_tree_compatible_pair"
         viol.append({"sig": kind + (":with_usage" if with_usage else ""),
-                     "witness": {"metrics": metrics, "only_in_join": only_join[:6], "only_in_reference": only_ref[:6], "join_front": len(got), "reference_front": len(ref),
+                     "witness": {"metrics": metrics, "only_in_join": only_join[:6], "only_in_reference": only_ref[:6],
+                                 "only_in_join_all": only_join[:40], "only_in_reference_all": only_ref[:40], "join_front": len(got), "reference_front": len(ref),
                                  "compatible_pairs": counters.get("compatible_pairs_combined", 0), "spec": gs.summary(d)}})
     nt = [json.dumps([d["class"], d["workload"]["ranks"], d["mapper"], metrics, [e["name"] for e in d["workload"]["einsums"]]])] \
-        if counters.get("compatible_pairs_combined", 0) >= 2 and min(len(ra), len(rb)) >= 2 else []
+        if counters.get("compatible_pairs_combined", 0) >= 2 and min(sizes) >= 2 else []
     return {"status": "violation" if viol else "ok", "violations": viol, "nontrivial": nt, "counters": counters,
-            "sample": {"spec": gs.summary(d), "rows_per_einsum": [len(ra), len(rb)], "compatible_pairs": counters.get("compatible_pairs_combined", 0),
+            "sample": {"spec": gs.summary(d), "rows_per_einsum": sizes, "compatible_pairs": counters.get("compatible_pairs_combined", 0),
                        "reference_front": [list(x) for x in ref[:8]]}}
+
+
+TRIPLE_BUDGET = 12000
+MODEL_BUDGET = 400
+
+
+def _chain3(case, d, metrics, m, pm, tables, counters, bump):
+    """3-Einsum chain E0 -> E1 -> E2: every compatible TRIPLE of rows is merged by the reference merger and
+    evaluated by the real model."""
+    from .. import harness as H
+    from ..ref import joinref as jr
+    from accelforge.model.main import InvalidMappingError
+    names = [e["name"] for e in d["workload"]["einsums"]]
+    ra, rb, rc = (tables[n] for n in names)
+    users = {}
+    for e in d["workload"]["einsums"]:
+        for t in e["tensors"]:
+            users.setdefault(t["name"], set()).add(e["name"])
+    sh_ab = sorted(t for t, u in users.items() if {names[0], names[1]} <= u)
+    sh_bc = sorted(t for t, u in users.items() if {names[1], names[2]} <= u)
+    if any({names[0], names[2]} <= u for u in users.values()):
+        bump("skipped_not_a_chain")
+        return {"status": "ok", "counters": counters}
+    ab = [[jr.compatible(a[2], b[2], sh_ab) for b in rb] for a in ra]
+    bc = [[jr.compatible(b[2], c[2], sh_bc) for c in rc] for b in rb]
+    bump("pairs_examined", len(ra) * len(rb) + len(rb) * len(rc))
+    triples = [(i, j, k) for i in range(len(ra)) for j in range(len(rb)) if ab[i][j] for k in range(len(rc)) if bc[j][k]]
+    if len(triples) > TRIPLE_BUDGET:
+        bump("skipped_over_pair_budget")
+        return {"status": "ok", "counters": counters, "reason": f"{len(triples)} compatible triples, tables {len(ra)},{len(rb)},{len(rc)}"}
+    mems = [x["name"] for x in d["arch"]["mems"]]
+    finite = [x["name"] for x in d["arch"]["mems"] if x.get("size", "inf") != "inf"]
+    with_usage = "RESOURCE_USAGE" in metrics
+    if len(triples) > MODEL_BUDGET:
+        return _chain3_staged(d, metrics, m, pm, (ra, rb, rc), triples, (sh_ab, sh_bc), counters, bump)
+    cands, fallback_points = [], set()
+    for i, j, k in triples:
+        a, b, c = ra[i], rb[j], rc[k]
+        bump("compatible_pairs_combined")
+        bump("compatible_triples_combined")
+        _combo(d, lambda: jr.merge_chain3(a[2], b[2], c[2], sh_ab, sh_bc, mems), a[0] + b[0] + c[0], _add(a[1], b[1], c[1]),
+               with_usage, finite, bump, cands, fallback_points)
+    return _compare(d, metrics, m, pm, cands, fallback_points, counters, bump, [len(ra), len(rb), len(rc)])
+
+
+def _chain3_staged(d, metrics, m, pm, tabs, triples, shared, counters, bump):
+    """Many compatible triples: capacity / usage of every merged tree come from the occupancy SIMULATOR (the
+    reference of C06, imports nothing from accelforge); a random sample is cross-checked against the real model.
+    When the resulting front differs from the join's, every triple is re-evaluated by the real model (under a
+    watchdog) and only that comparison can produce a violation."""
+    import random
+    from .. import harness as H
+    from ..ref import joinref as jr
+    from ..ref.occupancy import Occupancy
+    from ..timeouts import time_limit
+    ra, rb, rc = tabs
+    sh_ab, sh_bc = shared
+    mems = [x["name"] for x in d["arch"]["mems"]]
+    finite = [x["name"] for x in d["arch"]["mems"] if x.get("size", "inf") != "inf"]
+    size = {x["name"]: x["size"] for x in d["arch"]["mems"]}
+    arch = {x["name"]: {"kind": x.get("kind", "Memory"), "bits": x.get("bits_per_value")} for x in d["arch"]["mems"]}
+    with_usage = "RESOURCE_USAGE" in metrics
+    cands, trees = [], []
+    for i, j, k in triples:
+        a, b, c = ra[i], rb[j], rc[k]
+        bump("compatible_pairs_combined")
+        bump("compatible_triples_combined")
+        try:
+            tree = jr.merge_chain3(a[2], b[2], c[2], sh_ab, sh_bc, mems)
+        except ValueError:
+            bump("combinations_without_common_order")
+            continue
+        pk = Occupancy(d["workload"], arch).run(tree).peaks("tile")
+        bump("combinations_simulated")
+        se, sl = a[0] + b[0] + c[0], _add(a[1], b[1], c[1])
+        if any(pk.get(x, 0) > size[x] for x in finite):
+            bump("combinations_over_capacity")
+            trees.append((tree, se, sl, None))
+            continue
+        v = tuple(_vec(se, sl) + ([round(pk.get(x, 0) / size[x], 6) for x in finite] if with_usage else []))
+        cands.append(v)
+        trees.append((tree, se, sl, v))
+    # cross-check a sample of the simulated combinations against the real model
+    from accelforge.model.main import InvalidMappingError
+    rnd = random.Random(len(trees))
+    for tree, se, sl, v in rnd.sample(trees, min(30, len(trees))):
+        try:
+            ev = H.eval_tree(d, tree)
+            ru = ev.resource_usage()
+            mv = tuple(_vec(se, sl) + ([round(float(ru.get(x, 0.0)), 6) for x in finite] if with_usage else []))
+        except InvalidMappingError:
+            mv = None
+        except Exception:
+            bump("sample_model_refuses_tree")
+            continue
+        bump("sample_cross_checked")
+        if (mv is None) != (v is None) or (v is not None and any(abs(p - q) > 1e-5 for p, q in zip(v, mv))):
+            bump("sample_simulator_model_disagree")
+    sizes = [len(ra), len(rb), len(rc)]
+    cache = {}
+    res = _compare(d, metrics, m, pm, cands, set(), dict(counters), lambda *a, **k: None, sizes, cache)
+    if res["status"] != "violation" and not counters.get("sample_simulator_model_disagree"):
+        bump("specs_compared")
+        bump("specs_decided_by_simulated_occupancy")
+        res["counters"] = counters
+        return res
+    # disagreement: only MODEL-evaluated combinations decide.  For a point only the join has: every combination with
+    # the same energy/latency sums; for a point only the reference has: the combination itself and everything that
+    # could dominate it.
+    bump("specs_re_evaluated_by_model")
+    w = res["violations"][0]["witness"] if res.get("violations") else {"only_in_join": [], "only_in_reference": []}
+    existence = bool(res.get("violations")) and res["violations"][0]["sig"].startswith("join_and_reference_disagree_on_existence")
+    only_join = [tuple(x) for x in w.get("only_in_join_all", w.get("only_in_join", []))]
+    only_ref = [tuple(x) for x in w.get("only_in_reference_all", w.get("only_in_reference", []))]
+    nobj = 2 if "LATENCY" in metrics else 1
+    tol = 2.0 ** -16
+    memo = {}
+
+    def near(x, y):
+        return all(abs(p - q) <= tol * max(abs(p), abs(q)) + 1e-6 for p, q in zip(x, y))
+
+    def mv(i):
+        if i not in memo:
+            tree, se, sl, v = trees[i]
+            c2 = []
+            _combo(d, lambda: tree, se, sl, with_usage, finite, bump, c2, set())
+            bump("combinations_re_evaluated_by_model")
+            memo[i] = c2[0] if c2 else None
+        return memo[i]
+
+    def sums(i):
+        return tuple(_vec(trees[i][1], trees[i][2]))
+
+    def dominates(a, r):
+        return all(p <= q + tol * abs(q) + 1e-6 for p, q in zip(a, r)) and any(p < q - tol * abs(q) - 1e-6 for p, q in zip(a, r))
+    conf_join, conf_ref = [], []
+    try:
+        with time_limit(1200):
+            if existence:
+                # join has rows <=> some combination is valid under the MODEL
+                any_valid = any(mv(i) is not None for i in range(len(trees)))
+                bump("specs_compared")
+                res["counters"] = counters
+                if any_valid == bool(w.get("join_has_rows")):
+                    res["violations"], res["status"] = [], "ok"
+                return res
+            for g in only_join:
+                same = [i for i in range(len(trees)) if near(sums(i), g[:nobj])]
+                if not any(mv(i) is not None and near(mv(i), g) for i in same):
+                    conf_join.append(g)
+                elif not with_usage:
+                    dom = [i for i in range(len(trees)) if all(p <= q + tol * abs(q) + 1e-6 for p, q in zip(sums(i), g[:nobj]))]
+                    if any(mv(i) is not None and dominates(mv(i), g) for i in dom):
+                        conf_join.append(g)
+            for r in only_ref:
+                own = [i for i in range(len(trees)) if trees[i][3] is not None and near(trees[i][3], r)]
+                if not any(mv(i) is not None and near(mv(i), r) for i in own):
+                    bump("reference_point_not_confirmed_by_model")
+                    continue
+                dom = [i for i in range(len(trees)) if all(p <= q + tol * abs(q) + 1e-6 for p, q in zip(sums(i), r[:nobj]))]
+                if any(mv(i) is not None and dominates(mv(i), r) for i in dom):
+                    bump("reference_point_dominated_under_model_values")
+                    continue
+                conf_ref.append(r)
+    except BaseException as ex:
+        if type(ex).__name__ != "ItemTimeout":
+            raise
+        return {"status": "inconclusive", "reason": "model re-evaluation ran out of time", "counters": counters}
+    bump("specs_compared")
+    if counters.get("sample_simulator_model_disagree") and not (conf_join or conf_ref):
+        bump("difference_explained_by_simulator_vs_model")
+    res["counters"] = counters
+    if conf_join or conf_ref:
+        kind = "join_misses_combinations" if conf_ref and not conf_join else ("join_returns_unknown_or_dominated_points" if conf_join and not conf_ref else "fronts_differ")
+        w = dict(w, only_in_join=conf_join[:6], only_in_reference=conf_ref[:6], confirmed_by_model=True)
+        w.pop("only_in_join_all", None), w.pop("only_in_reference_all", None)
+        res["violations"] = [{"sig": kind + (":with_usage" if with_usage else ""), "witness": w}]
+        res["status"] = "violation"
+    else:
+        res["violations"], res["status"] = [], "ok"
+    return res
